@@ -3,12 +3,15 @@
 import os, json, glob, re
 V = os.path.dirname(os.path.dirname(os.path.abspath(__file__)))
 rows = []
-for d in sorted(glob.glob(os.path.join(V, 'seeded', 'C*_[1-9]'))):
+for d in sorted(glob.glob(os.path.join(V, 'seeded', 'C*_[1-9]*')), key=lambda p_: (os.path.basename(p_).split('_')[0], int(os.path.basename(p_).split('_')[1]))):
     m = json.load(open(os.path.join(d, 'meta.json')))
     rp = os.path.join(d, 'result.json')
     if not os.path.exists(rp):
         continue
     r = json.load(open(rp))['results']
+    # rows whose result predates the last full run (SELFTEST_CUTOFF, epoch seconds) are marked: they were produced by the machinery of the run before
+    stale = bool(os.environ.get('SELFTEST_CUTOFF')) and os.path.getmtime(rp) < float(os.environ['SELFTEST_CUTOFF'])
+    globals()['STALE'] = globals().get('STALE', 0) + (1 if stale else 0)
     alarms = [k for k, v in r.items() if v['rc'] == 1]
     und = [k for k, v in r.items() if v['rc'] == 2]
     how = []
@@ -26,7 +29,7 @@ for d in sorted(glob.glob(os.path.join(V, 'seeded', 'C*_[1-9]'))):
         stats[b]['undecided' if prim in und else 'missed'] += 1
     else:
         stats[b][kind] += 1
-    rows.append('| %s | %s | %s | %s | %s | %s |' % (m['id'], m.get('change', ''), m.get('needs_to_manifest', ''), ', '.join(alarms) or '-', ', '.join(und) or '-', '; '.join(how[:2]) or '-'))
+    rows.append('| %s | %s | %s | %s | %s | %s |' % (m['id'] + (' (previous run)' if stale else ''), m.get('change', ''), m.get('needs_to_manifest', ''), ', '.join(alarms) or '-', ', '.join(und) or '-', '; '.join(how[:2]) or '-'))
 out = ['### 9.1 Results (quick checks, every claimed property run against every change)', '',
        '"alarm" = exit 1 with a VIOLATION line; "undecided" = exit 2 (lost anchor / unsupported construct / resource limit; never an alarm). The last column is the obligation',
        'reported by the check of the property the change was written to break: a clause name means the deductive verifier refuted it; `bounded.*` means the verifier was',
@@ -35,7 +38,7 @@ out = ['### 9.1 Results (quick checks, every claimed property run against every 
 STATS = globals().get('STATS', {})
 summ = ['', 'Summary of the last full run (primary property of each change): ' + '; '.join(
     'ids _%s: %d refuted by the deductive verifier, %d by the bounded native fallback/standing check, %d undecided, %d missed' % (b, v['deductive'], v['bounded'], v['undecided'], v['missed'])
-    for b, v in sorted(STATS.items())) + ' (suffix _1/_2 = batch 1, _3 = batch 2, _4 = batch 3, _5 = batch 4, _6 = batch 5 - the novelty round). "Refuted by the deductive verifier" counts a change when at least one reported obligation of its primary property is a named clause.']
+    for b, v in sorted(STATS.items(), key=lambda kv: int(kv[0]))) + ' (suffix _1/_2 = batch 1, _3 = batch 2, _4 = batch 3, _5 = batch 4, _6 .. _10 = batches 5 .. 9, the five novelty rounds; the _10 rows were produced by the final machinery, which saw no change prompted by them except those named under Batch 9).' + (' %d rows marked "(previous run)" were not reached again by the last run and show the result of the run before it.' % globals().get('STALE', 0) if globals().get('STALE', 0) else '') + ' "Refuted by the deductive verifier" counts a change when at least one reported obligation of its primary property is a named clause.']
 out += summ
 ben = []
 for d in sorted(glob.glob(os.path.join(V, 'benign', 'B*'))):
@@ -44,7 +47,7 @@ for d in sorted(glob.glob(os.path.join(V, 'benign', 'B*'))):
         continue
     r = json.load(open(rp))['results']
     ben.append('| %s | %s | %s |' % (os.path.basename(d), ', '.join(k for k, v in r.items() if v['rc'] == 1) or 'none', ', '.join(k for k, v in r.items() if v['rc'] == 2) or 'none'))
-out += ['', '### 9.2 Harmless changes (must never alarm)', '', 'Semantics-preserving edits (`benign/<id>/patch.diff`; the 72 tests pass with each). Exit 2 is acceptable, exit 1 is not.', '',
+out += ['', '### 9.2 Harmless changes (must never alarm)', '', 'Semantics-preserving edits, plus one behaviour change that keeps every property (B17: `KeyTooLongError` gains a public field that says how long a secret may be)', '(`benign/<id>/patch.diff`; the 72 tests pass with each). Exit 2 is acceptable, exit 1 is not.', '',
         '| id | alarms | undecided |', '|---|---|---|'] + ben
 txt = open(os.path.join(V, 'DESIGN.md')).read()
 block = '<!-- TABLE-BEGIN -->\n' + '\n'.join(out) + '\n<!-- TABLE-END -->'
